@@ -8,5 +8,6 @@ CONSTANTS
   DropFinal = FALSE
   LossyUtf8 = FALSE
   EncodeLFs = 2
+  EofSkipsDecode = FALSE
 SPECIFICATION Spec
 CHECK_DEADLOCK FALSE
